@@ -13,6 +13,34 @@ CHECKS = {
         note="trusted: numpy, the reference model mc/refmodel.py, the model generator mc/family.py; tolerance 1e-9 relative; CPU/x64 only; unsupported models (as decided by the reference) are skipped and counted",
         design="§4 C01",
     ),
+    "C02": dict(
+        engine="E1-family-explorer",
+        technique="bounded exhaustive enumeration of model programs x all grid states (+off-grid copies) as agents, real jitted simulation; every simulated row checked against the reference objective over all grid choice combinations",
+        text="Every model of Family_1(B0) and of Family_2 restricted to the interaction-prone features (filters, dense discrete choice, 0-2 continuous choices of unequal size, stochastic states, constraints, grid types) is simulated by the real code with every in-space grid state and an off-grid copy of it as agents, with lcm's own value arrays and with a synthetic non-monotone value array; for every (period, agent) row the reported choices must be grid values, feasible, and attain the reference maximum, and the value column must equal it. Exhaustive within the bound.",
+        note="trusted: reference objective in mc/refmodel.py; any maximiser within 1e-9 is accepted; rows with -inf reference maximum are excluded and counted; jit on only (as the property states)",
+        design="§4 C02",
+    ),
+    "C18": dict(
+        engine="E2-primitive-explorer",
+        technique="exhaustive enumeration of all arrays over {0,1,2} x all masks x all axis subsets / all contiguous segmentations / all variable layouts on the real primitives (jit+vmap and eager), nested-loop reference; fused clause over an expression x vector-length alphabet and every Family_1 model",
+        text="argmax: every array over {0,1,2} (and {-inf,0,1.5}) of shapes up to 6 cells, every mask, every non-empty axis subset, jitted+vmapped and eagerly; segment_argmax: every contiguous segmentation of <= 5 rows (0-2 trailing axes) x every array over {0,1,2}; reducers built by get_solve_discrete_problem for all 100+ layouts of restricted/unrestricted states and choices derived from real processed models; fused-input clause: arg-max taken inside the same jit as 8 expressions x 15 SIMD-remainder lengths, and the real policy functions of every Family_1 model on all grid states. Over 1e6 oracle evaluations, all enumerated, none sampled.",
+        note="XLA's fusion decisions cannot be enumerated; the fused clause is bounded by the expression/length alphabet and the model family",
+        design="§4 C18",
+    ),
+    "C19": dict(
+        engine="E2-primitive-explorer",
+        technique="exhaustive enumeration of all signatures (<=4 params, 3 kinds) x all ordered subsets of mapped names x output pytrees on the real dispatchers/wrappers; nested Python loops with an injective positional code as reference",
+        text="productmap, vmap_1d, spacemap and the functools wrappers are run for every signature with 1-4 parameters (thorough 5) of the three parameter kinds in every legal order, every ordered subset of mapped names, every dense/sparse/put_dense_first split, scalar/tuple/dict outputs, every keyword order, every positional/keyword split and every single missing, unexpected or duplicated argument; each result is compared entry by entry with nested loops.",
+        note="*args/**kwargs signatures are outside the alphabet; vmap_1d is called directly only for signatures without keyword-only parameters",
+        design="§4 C19",
+    ),
+    "C20": dict(
+        engine="E2-primitive-explorer",
+        technique="exhaustive enumeration of all arrays over a 6-value magnitude alphabet (<=5 cells) x all choice-axis subsets x all contiguous segmentations x scales on the real aggregation functions; extended-precision reference",
+        text="_calculate_emax_extreme_value_shocks and _segment_logsumexp are evaluated on every array over {-1e6,-3,0,1e-3,2,1e6} for every shape with <= 5 cells (structured arrays for larger shapes), every non-empty choice-axis subset, every contiguous segmentation of <= 5 rows, 9 scales from 1e-6 to 1e3 and 3 shifts; each result must be finite, equal the longdouble log-sum-exp to 1e-9, lie in [max, max+s*log n], obey the shift law and the s->0 limit, and segment layout must equal axis layout.",
+        note="numpy.longdouble reference; magnitudes <= 1e6",
+        design="§4 C20",
+    ),
 }
 
 NOT_APPLICABLE = {
